@@ -206,6 +206,24 @@ func checkC05(p *Prog, c *Check) {
 					if !done {
 						c.Unk("R5.2", cons, pos, "allocation size "+l.String()+" is not shown to be bounded by the bytes present")
 					}
+					if x.Cap != nil && x.Cap != x.Len {
+						// the capacity is what is allocated
+						cp := pr.lin(x.Cap)
+						doneC := cp.isConst()
+						for _, prm := range fn.Params {
+							if _, ok := prm.Type().Underlying().(*types.Slice); !ok || doneC {
+								continue
+							}
+							if pr.Prove(b, pr.lenOf(prm).sub(cp)) {
+								doneC = true
+							}
+						}
+						if doneC {
+							c.OK("R5.2", cons+"#cap", pos, "capacity "+cp.String()+" bounded by the bytes present")
+						} else {
+							c.Unk("R5.2", cons+"#cap", pos, "allocation capacity "+cp.String()+" is not shown to be bounded by the bytes present")
+						}
+					}
 				case *ssa.Call:
 					bi, ok := x.Call.Value.(*ssa.Builtin)
 					if !ok || bi.Name() != "append" || len(x.Call.Args) < 2 {
@@ -215,6 +233,12 @@ func checkC05(p *Prog, c *Check) {
 					ia++
 					cons := fmt.Sprintf("%s#append%d", qname(fn), ia)
 					n, isConst := constLenOfBuf(x.Call.Args[1])
+					if sl, isSl := x.Call.Args[0].(*ssa.Slice); isSl && sl.Max != nil {
+						// append(s[:n:n], …): the capacity is clipped, so every call allocates and copies the whole list —
+						// per element of a list read from the frame that is quadratic work and memory
+						c.Unk("R5.2", cons, posOf(p, ins), "appends onto a base whose capacity is clipped (3-index slice): each call copies the list built so far; over a frame's list that is quadratic in the frame size")
+						continue
+					}
 					if isConst {
 						c.OK("R5.2", cons, posOf(p, ins), fmt.Sprintf("appends %d element(s) per execution", n))
 					} else {
@@ -252,6 +276,40 @@ func checkC05(p *Prog, c *Check) {
 					k++
 					nbadx++
 					c.Unk("R5.4", fmt.Sprintf("%s#extcall%d", qname(fn), k), posOf(p, ins), "library function "+name+" has no cost model: the work it does per call is not known to be proportional to its arguments")
+					continue
+				}
+				// work linear in the arguments is proportional to the frame only if the argument is the item being
+				// decoded, not the open-ended rest of the input (which a loop over the frame's items would scan again
+				// for every item)
+				if externPure[name] && !strings.HasPrefix(name, "(encoding/binary.bigEndian).") && !strings.HasPrefix(name, "fmt.") && !strings.HasPrefix(name, "errors.") {
+					for _, a := range ci.Common().Args {
+						v := a
+						for {
+							if cv, ok := v.(*ssa.Convert); ok {
+								v = cv.X
+								continue
+							}
+							if ct, ok := v.(*ssa.ChangeType); ok {
+								v = ct.X
+								continue
+							}
+							break
+						}
+						openTail := false
+						switch y := v.(type) {
+						case *ssa.Parameter:
+							_, openTail = y.Type().Underlying().(*types.Slice)
+						case *ssa.Slice:
+							if _, isPrm := y.X.(*ssa.Parameter); isPrm && y.High == nil {
+								openTail = true
+							}
+						}
+						if openTail {
+							k++
+							nbadx++
+							c.Unk("R5.4", fmt.Sprintf("%s#extcall%d", qname(fn), k), posOf(p, ins), name+" is given the open-ended rest of the input, not the item being decoded: its work is proportional to the remaining frame on every call")
+						}
+					}
 				}
 			}
 		}
